@@ -138,6 +138,8 @@ def container_monitor(run):
         for p in e['pools']:
             for c in p['active']:
                 inf = run.info[c['cid']]
+                if c['ops'] != inf['ops']:
+                    yield f'container {c["cid"]} runs operators {c["ops"]}, it was assigned {inf["ops"]} (in that order)'
                 age = e['age'].get(c['cid'])
                 if age is not None and age - 1 < len(inf['full']) and F(c['mem']) != F(inf['full'][age - 1]):
                     yield f'container {c["cid"]} uses {c["mem"]} in its tick {age}, the operator script says {inf["full"][age - 1]}'
@@ -212,6 +214,10 @@ def gen_container(rng):
     ram = rng.choice([pick, math.floor(pick * 1024 - 1) / 1024.0, math.floor(pick * 1024 + 1) / 1024.0, max(vals) + 1, max(vals)])
     ram = max(ram, 1.0 / 1024)
     dag = [[j - 1] if j else [] for j in range(nops)]
+    if rng.random() < 0.3:
+        # not a chain: roots after children, operators of different depth side by side; a container runs its
+        # operators in the order the assignment lists them (any order in which parents come first is admissible)
+        dag = [[rng.randrange(j)] if (j and rng.random() < 0.5) else [] for j in range(nops)]
     recipe = dict(gen='G-time-container', tps=tps, over=0, multi=1, npools=1, cpu=8, ram=4096, pipes=[(3, dag)],
                   segs=[opsegs], ticks=[dict(susp=[], asg=[(list(range(nops)), cpu, ram, 3, 0)])], bad=None)
     recipe['ticks'] += [dict(susp=[], asg=[]) for _ in range(len(full) + 2)]
